@@ -574,7 +574,8 @@ func (m *InstrMetaStore) GetMaybeFilesForQuery(ctx context.Context, q *bs.QueryP
 			return
 		}
 		for f, err := range inner {
-			yseq, yact := m.Log.begin("IterYield", 0, string(f.PointerBytes), 0, 0)
+			// Handle carries the sequence number of the iteration this yield belongs to
+			yseq, yact := m.Log.begin("IterYield", seq, string(f.PointerBytes), 0, 0)
 			if perr := pre(ctx, yact); perr != nil {
 				m.Log.end(yseq, perr, -1)
 				return
